@@ -5386,7 +5386,7 @@ type observation = { o_line : str; o_pos : nat; o_mode : input_mode;
 type config = { c_mode : edit_mode; c_completion : completion_type;
                 c_timeout_none : bool; c_cols : nat; c_tab_stop : nat;
                 c_indent_size : nat; c_prompt_limit : nat; c_show_all : 
-                bool; c_has_helper : bool;
+                bool; c_bell : bool; c_has_helper : bool;
                 c_complete : (str -> nat -> nat * str list);
                 c_hint : (str -> nat -> str option);
                 c_validate : (str -> vresult);
@@ -6255,10 +6255,10 @@ let edit_history u cfg first =
                      else ebind (set_hidx (hlen_e s)) (fun _ ->
                             ebind (restore u) (fun _ -> refresh_line u cfg))))
 
-(** val beep : unit e **)
+(** val beep : config -> unit e **)
 
-let beep =
-  write ((Npos (XI (XI XH))) :: [])
+let beep cfg =
+  if cfg.c_bell then write ((Npos (XI (XI XH))) :: []) else eret ()
 
 (** val hist_of : est -> hist **)
 
@@ -6271,7 +6271,7 @@ let hist_of s =
 let edit_history_search u cfg d =
   ebind eget (fun s ->
     if Nat.eqb (hlen_e s) O
-    then beep
+    then beep cfg
     else if (||)
               ((&&) (Nat.eqb s.e_hidx (hlen_e s))
                 (match d with
@@ -6281,7 +6281,7 @@ let edit_history_search u cfg d =
                 (match d with
                  | Forward -> false
                  | Reverse -> true))
-         then beep
+         then beep cfg
          else let idx =
                 match d with
                 | Forward -> S s.e_hidx
@@ -6296,7 +6296,7 @@ let edit_history_search u cfg d =
                     ebind changes_begin (fun _ ->
                       ebind (lb_changes u (update entry p)) (fun _ ->
                         ebind changes_end (fun _ -> refresh_line u cfg))))
-                | None -> beep))
+                | None -> beep cfg))
 
 (** val validate : uData -> config -> vresult e **)
 
@@ -8360,7 +8360,7 @@ let complete_hint_line u cfg =
         ebind (lb_changes u (yank text (S O))) (fun r ->
           ebind (match r with
                  | Some _ -> eret ()
-                 | None -> beep) (fun _ -> refresh_line u cfg)))
+                 | None -> beep cfg) (fun _ -> refresh_line u cfg)))
     | None -> eret ())
 
 (** val is_default_prompt : est -> bool **)
@@ -8682,10 +8682,10 @@ let circular_branch u cfg rec0 cands backup0 mark i c = match c with
       ebind (set_changes (cs_truncate s.e_changes mark)) (fun _ -> eret None)))
 | CComplete ->
   let i' = Nat.modulo (add i (S O)) (add (length cands) (S O)) in
-  ebind (if Nat.eqb i' (length cands) then beep else eret ()) (fun _ ->
+  ebind (if Nat.eqb i' (length cands) then beep cfg else eret ()) (fun _ ->
     rec0 i')
 | CCompleteBackward ->
-  ebind (if Nat.eqb i O then beep else eret ()) (fun _ ->
+  ebind (if Nat.eqb i O then beep cfg else eret ()) (fun _ ->
     rec0
       (if Nat.eqb i O
        then length cands
@@ -8913,7 +8913,7 @@ let complete_line u cfg fuel =
   ebind eget (fun s ->
     let (start, cands) = cfg.c_complete s.e_line.buf s.e_line.pos in
     (match cands with
-     | [] -> ebind beep (fun _ -> eret None)
+     | [] -> ebind (beep cfg) (fun _ -> eret None)
      | _ :: _ ->
        (match cfg.c_completion with
         | CTCircular ->
@@ -8923,7 +8923,7 @@ let complete_line u cfg fuel =
         | CTList ->
           ebind (list_span_step u cfg start cands) (fun _ ->
             if Nat.ltb (S O) (length cands)
-            then ebind beep (fun _ ->
+            then ebind (beep cfg) (fun _ ->
                    ebind
                      (if cfg.c_show_all
                       then eret CComplete
@@ -9476,8 +9476,9 @@ let mk_config mode ct timeout_none cols0 has_helper cands hints vk bindings =
   { c_mode = mode; c_completion = ct; c_timeout_none = timeout_none; c_cols =
     cols0; c_tab_stop = default_tab_stop; c_indent_size =
     default_indent_size; c_prompt_limit = default_completion_prompt_limit;
-    c_show_all = false; c_has_helper = has_helper; c_complete =
-    (script_complete cands); c_hint = (script_hint hints); c_validate =
+    c_show_all = false; c_bell = true; c_has_helper = has_helper;
+    c_complete = (script_complete cands); c_hint = (script_hint hints);
+    c_validate =
     (match vk with
      | VKNone -> (fun _ -> VRValid None)
      | VKBrackets -> (fun l -> brackets_v l [])
